@@ -18,9 +18,14 @@ def plural(k):
     return {"argparse_function": "argparse_functions", "class": "classes", "function": "functions"}[k]
 
 
-def target_name(k, method):
+OUTER = "Outer"
+
+
+def target_name(k, method, nested=False):
     if k == "function" and method:
         return "%s.%s" % (HOLDER, NAMES[k])
+    if k == "class" and nested:
+        return "%s.%s" % (OUTER, NAMES[k])
     return NAMES[k]
 
 
@@ -35,10 +40,13 @@ def emit_def(k, ir, method=False):
     return emit.function(ir, function_name=NAMES[k], function_type="self" if method else "static")
 
 
-def def_source(k, ir, method=False):
+def def_source(k, ir, method=False, nested=False):
     from doctrans.source_transformer import to_code
 
     src = to_code(emit_def(k, ir, method))
+    if k == "class" and nested:
+        body = "\n".join("    " + l if l.strip() else l for l in src.splitlines())
+        src = "class %s(object):\n    outer_attr = 1\n\n%s\n\n    def outer_method(self):\n        return 1\n" % (OUTER, body)
     if k == "function" and method:
         body = "\n".join("    " + l if l.strip() else l for l in src.splitlines())
         src = "class %s(object):\n    %s = 1\n\n%s\n" % (HOLDER, "marker_attr", body)
@@ -53,7 +61,7 @@ OTHER = {
 OTHER_METHOD = "class %s(object):\n    marker_attr = 1\n\n    def other(self, a, b=1):\n        return a\n" % HOLDER
 
 
-def write_state(path, k, state, gold_ir_factory, stale_ir_factory, method=False, black=True):
+def write_state(path, k, state, gold_ir_factory, stale_ir_factory, method=False, black=True, nested=False):
     """Creates the pre-state of one target file. *_factory() return fresh doctrans-form IRs."""
     from black import Mode, format_str
 
@@ -67,7 +75,7 @@ def write_state(path, k, state, gold_ir_factory, stale_ir_factory, method=False,
         src = OTHER_METHOD if (k == "function" and method) else OTHER[k]
     else:
         ir = gold_ir_factory() if state == "agreeing" else stale_ir_factory()
-        src = def_source(k, ir, method)
+        src = def_source(k, ir, method, nested)
         if black:
             src = format_str(src, mode=Mode(target_versions=set(), line_length=119, is_pyi=False, string_normalization=False))
     with open(path, "w") as f:
@@ -86,7 +94,7 @@ def handwritten(src, k, method):
     return "# hand-written source of truth\nTRUTH_MARKER = 'kept'\n\n" + ast.unparse(tree) + "\n"
 
 
-def run_sync(paths, truth, method, given, style="abs"):
+def run_sync(paths, truth, method, given, style="abs", nested=False):
     """API call exactly as __main__ builds it. `given`: kinds whose file is passed. `style`: how the files are spelled on
     the "command line" (absolute, relative to the cwd, through a symlinked directory); the truth file is passed
     canonicalised, as __main__ does."""
@@ -105,7 +113,7 @@ def run_sync(paths, truth, method, given, style="abs"):
     ns = {}
     for k in KIND_KEYS:
         ns[plural(k)] = [spell(paths[k])] if k in given else []
-        ns[k + "_names"] = [target_name(k, method)]
+        ns[k + "_names"] = [target_name(k, method, nested)]
     ns["truth"] = truth
     out = io.StringIO()
     cwd = os.getcwd()
@@ -121,10 +129,15 @@ def run_sync(paths, truth, method, given, style="abs"):
     return res, out.getvalue()
 
 
-def find_defs(src, k, method):
+def find_defs(src, k, method, nested=False):
     """-> list of definition nodes at the addressed location (model: exact path), and the parsed module."""
     tree = ast.parse(src)
     scope = tree.body
+    if k == "class" and nested:
+        outers = [n for n in tree.body if isinstance(n, ast.ClassDef) and n.name == OUTER]
+        if not outers:
+            return [], tree
+        scope = outers[0].body
     if k == "function" and method:
         holders = [n for n in tree.body if isinstance(n, ast.ClassDef) and n.name == HOLDER]
         if not holders:
